@@ -4,6 +4,8 @@
    interleaving and every idle-timer restart) and every position of a read, write, wait, eof or
    flush failure. *)
 From Coq Require Import List NArith Bool.
+(* H3Stream first: the names it shares with the pipe model (delivered) mean the pipe's below *)
+From TT Require Import Model.H3Stream Proofs.H3StreamProofs.
 From TT Require Import Lib.BytesL Model.Pipe Generated.PipeFacts Proofs.PipeProofs.
 Import ListNotations.
 Open Scope N_scope.
@@ -44,6 +46,26 @@ Theorem pipe_code_as_modelled :
   /\ PIPE_AWAITS_AS_MODELLED = true /\ PIPE_SELECT_AS_MODELLED = true.
 Proof. repeat split; exact eq_refl. Qed.
 Print Assumptions pipe_code_as_modelled.
+
+(* HTTP/3: what the tunnel's source reads once the client has abandoned its request stream (RESET_STREAM). The read side of
+   Model/H3Stream.v, with the check that the regenerated fact pins: whatever else the client did before or after, and whatever
+   quiche's stream_finished says, a stream whose reset the codec has handled is a FAILED read (which [relay_exact] turns into the
+   tear-down of the whole tunnel), never the end of the upload. *)
+Theorem h3_client_reset_is_a_read_failure :
+  H3_SOURCE_RESET_IS_A_READ_FAILURE = true
+  /\ (forall evs, In ClientReset evs -> h3_read_empty H3_SOURCE_RESET_IS_A_READ_FAILURE (h3src_run evs) = SrcErr)
+  (* an end of the upload is reported only for a stream that was never reset, and that the client finished *)
+  /\ (forall evs, h3_read_empty H3_SOURCE_RESET_IS_A_READ_FAILURE (h3src_run evs) = SrcEof ->
+        ~ In ClientReset evs /\ In ClientFin evs).
+Proof. split; [exact eq_refl|exact h3_reset_read_proof]. Qed.
+Print Assumptions h3_client_reset_is_a_read_failure.
+
+(* the history of the finding, without the check: the client uploads, resets its stream while the source is busy writing to a
+   destination that does not read; the codec handles the reset (stream shut down and forgotten); the next read is an end of stream *)
+Example h3_reset_read_as_end_of_upload_without_the_check :
+  h3_read_empty false (h3src_run [ClientReset]) = SrcEof /\ h3_read_empty true (h3src_run [ClientReset]) = SrcErr
+  /\ h3_read_empty true (h3src_run [ClientFin]) = SrcEof /\ h3_read_empty true (h3src_run []) = SrcWait.
+Proof. vm_compute. repeat split. Qed.
 
 (* Non-vacuity: partial writes, a restart in the middle, clean end *)
 Example ex_relay :
